@@ -116,6 +116,7 @@ func init() {
 		}
 		enumV3Temporal(r, P, st, decs, []map[string]string{{}, {"MS": "C", "CR": "H", "MAV": "P"}})
 		omittedTemporal(r, P, st)
+		r.Phase("score sequences", func() { scoreSequences(r, 3, 1) })
 		st.report(r, 3)
 		o := oracle.GetV3()
 		r.Set("oracle_ambiguous_roundings", int64(o.Ambiguous))
@@ -622,6 +623,7 @@ func init() {
 				envLattices(r, P, st, 16)
 			}
 		})
+		r.Phase("score sequences", func() { scoreSequences(r, 3, 2) })
 		exhaustive := false
 		if thorough {
 			r.Phase("full_product", func() { envFull(r, P, [][3]int{{0, 0, 0}}, 1) })
